@@ -269,6 +269,11 @@ func (l *listener) Stop() error {
 	l.mu.Lock()
 	conns := l.conns
 	l.conns = nil
+	// removeConn ignores connections once the registry is gone, settle them here.
+	for range conns {
+		l.stats.CxDestroyTotal.Inc()
+		l.stats.CxActive.Dec()
+	}
 	l.mu.Unlock()
 
 	if l.ln != nil {
